@@ -497,7 +497,8 @@ def r03_6(ctx: Ctx, roots) -> None:
     clo = ctx.res.closure(roots)
     helpers = [f for f in clo.values() if f.module == "helpers" and any(
         dotted(c.func) in ("os.path.realpath",) or (isinstance(c.func, ast.Attribute) and c.func.attr in ("resolve", "realpath")) for c in q.calls(f))]
-    ctx.floor("R03.6", len(helpers), 1, "link-resolving helper in helpers.py reachable from extraction")
+    if not helpers:
+        ctx.note("R03.6: no link-resolving helper is reachable from extraction (R03.4 reports the missing checks)")
     for h in helpers:
         tparam = h.params[0]
         rp = [c for c in q.calls(h) if dotted(c.func) == "os.path.realpath" or (isinstance(c.func, ast.Attribute) and c.func.attr in ("resolve",))]
